@@ -522,7 +522,12 @@ type internalRequest struct {
 }
 
 func (i *internalRequest) Execute(_ bool) {
-	panic("not implemented")
+	// Internal requests are never `EXECUTE` requests, so this is only reached if the server answered one of them with
+	// an unexpected "unprepared" error. Fail the request instead of bringing down the process.
+	select {
+	case i.err <- errors.New("unexpected unprepared error response for an internal request"):
+	default:
+	}
 }
 
 func (i *internalRequest) Frame() interface{} {
@@ -556,7 +561,8 @@ type prepareRequest struct {
 }
 
 func (r *prepareRequest) Execute(_ bool) {
-	panic("not implemented")
+	// Only reached if the server answered a `PREPARE` with an "unprepared" error, give up on this host.
+	r.origRequest.Execute(true)
 }
 
 func (r *prepareRequest) Frame() interface{} {
